@@ -48,6 +48,7 @@ package inmem
 //@   requires[wf] wfStorage(ts)
 //@   requires[kind] kindOK(subPath, msg)
 //@   nopanic[C19]
+//@   ensures[C19,* unlocked] mutexHeld(ts) == old(mutexHeld(ts))
 //@   ensures[C19,* nodup] !isDuplicate(err)
 //@   ensures[C19,* nocancel] neverCancelled(ctx) ==> !isCtxErr(err)
 //@   ensures[C19,* stored] err == nil ==> id != "" && subPath != "" && rtHas(t, p) && encodes(rtBytes(t, p), msg)
@@ -61,6 +62,7 @@ package inmem
 //@   let p = subPath + "/" + id
 //@   requires[wf] wfStorage(ts)
 //@   nopanic[C19]
+//@   ensures[C19,* unlocked] mutexHeld(ts) == old(mutexHeld(ts))
 //@   ensures[C19,* nocancel] neverCancelled(ctx) ==> !isCtxErr(err)
 //@   ensures[C19,* found] err == nil ==> rtHas(t, p) && decodedFrom(result, rtBytes(t, p))
 //@   ensures[C19,* absent] id != "" && subPath != "" && !rtHas(t, p) ==> err != nil
@@ -75,6 +77,7 @@ package inmem
 //@   let p = subPath + "/" + id
 //@   requires[wf] wfStorage(ts)
 //@   nopanic[C19]
+//@   ensures[C19,* unlocked] mutexHeld(ts) == old(mutexHeld(ts))
 //@   ensures[C19,* nocancel] neverCancelled(ctx) ==> !isCtxErr(err)
 //@   ensures[C19,* removed] err == nil ==> !rtHas(t, p)
 //@   ensures[C19,* others] sameViewBut(t, p)
@@ -89,6 +92,7 @@ package inmem
 //@   let pre = subPath + "/"
 //@   requires[wf] wfStorage(ts)
 //@   nopanic[C19]
+//@   ensures[C19,* unlocked] mutexHeld(ts) == old(mutexHeld(ts))
 //@   ensures[C19,* failclosed] err != nil ==> ret == nil
 //@   ensures[C19,* sound] err == nil ==> forall j Int :: 0 <= j && j < len(ret) ==> rtHas(t, pre + ret[j])
 //@   ensures[C19,* complete] err == nil ==> forall k String :: rtHas(t, k) && hasPrefix(k, pre) ==> exists j Int :: 0 <= j && j < len(ret) && pre + ret[j] == k
